@@ -1306,13 +1306,36 @@ func (h *hist) crafted(prop *replica, honest *types.Block, height uint64) {
 	var extra *types.Transaction
 	what := ""
 	var id string
-	switch h.rnd.Intn(4) {
+	switch h.rnd.Intn(5) {
 	case 0:
 		if len(h.included) == 0 {
 			return
 		}
 		old := h.included[h.rnd.Intn(len(h.included))]
 		extra, what, id = old.tx, "replayed-tx-in-block", old.id
+	case 4:
+		// a transaction with NEW content (the victim's coins go to the attacker, the victim's next nonce) that carries the
+		// signature bytes of a transaction the victim really signed and the network has just processed: the signature does
+		// not cover this content, whoever is "recovered" from it is not the victim
+		if len(h.included) == 0 {
+			return
+		}
+		old := h.included[len(h.included)-1-h.rnd.Intn(minI(len(h.included), 6))]
+		victim := old.from
+		bal := h.ref.n.App.State.GetBalance(h.w.Addrs[victim])
+		if bal.Cmp(sim.Dna(300, 1)) < 0 {
+			return
+		}
+		n, ep := h.nextNonce(victim)
+		thief := h.w.Addrs[8]
+		t2 := h.w.Tx(sim.TxSpec{From: victim, To: &thief, Type: types.SendTx, Amount: new(big.Int).Sub(bal, sim.Dna(200, 1)), MaxFee: sim.Dna(100, 1), Nonce: n + 1, Epoch: ep})
+		t2.Signature = append([]byte(nil), old.tx.Signature...)
+		raw, err := t2.ToBytes()
+		forged := new(types.Transaction)
+		if err != nil || forged.FromBytes(raw) != nil {
+			return
+		}
+		extra, what, id = forged, "forged-signature-tx-in-block", "craft"
 	case 3:
 		// a nonce BELOW the next one: the number the sender used last (another transaction with it), or nonce zero - for a
 		// sender whose account carries an older epoch (or none) the number "used last" IS zero, and the only guard is the
@@ -1406,6 +1429,13 @@ func kindOf(b *types.Block) string {
 		return "empty"
 	}
 	return "proposed"
+}
+
+func minI(a, b int) int {
+	if a < b {
+		return a
+	}
+	return b
 }
 
 func maxI(a, b int64) int64 {
